@@ -5,7 +5,9 @@
    instance its identifier denotes, because real identifiers are random - and
    the expected observation: outcome, and per instance status, OnTerminate
    count, invocation count, per subscriber events received / termination
-   notices received.                                                         *)
+   notices received.  With ClientSide = TRUE (clientService, bus/service_reference.go)
+   the operations are add / addfail / remove / rterminate / call / svcterminate /
+   connclose and the identifiers are exact (real identifier 2^31 + id - 1).     *)
 EXTENDS Service, Json, Sequences, IOUtils
 
 CONSTANT SampleMod        \* 1: everything; k > 1: the seeded 1/k sample selected by the environment variable SEL
@@ -19,7 +21,7 @@ Holder(id) == IF \E k \in Inst : st[k] # "new" /\ idOf[k] = id
                 THEN CHOOSE k \in Inst : st[k] # "new" /\ idOf[k] = id ELSE 0
 Op(op, id, s, k) == [op |-> op, id |-> id, inst |-> k, sub |-> s]
 Obs == [ret |-> ret, st |-> st, term |-> term, exec |-> exec, got |-> got, told |-> told, subs |-> subs,
-        idOf |-> idOf, up |-> (svc = "up")]
+        idOf |-> idOf, up |-> (svc = "up"), open |-> (conn = "open")]
 Selected == SampleMod = 1 \/ TLCGet("generated") % SampleMod = (CHOOSE n \in 0..99 : ToString(n) = IOEnv.SEL)
 Step(o) == /\ hist' = Append(hist, [op |-> o, obs |-> Obs'])
            /\ Selected => PrintT(<<Tag, ToJson(hist')>>)
@@ -28,6 +30,7 @@ GInit == Init /\ hist = <<>>
 GNext == \/ Add /\ Step(Op("add", 0, "", NextInst))
          \/ AddFail /\ Step(Op("addfail", 0, "", NextInst))
          \/ SvcTerminate /\ Step(Op("svcterminate", 0, "", 0))
+         \/ ConnClose /\ Step(Op("connclose", 0, "", 0))
          \/ \E id \in Ids : Remove(id) /\ Step(Op("remove", id, "", Holder(id)))
          \/ \E id \in Ids : RemoteTerminate(id) /\ Step(Op("rterminate", id, "", Holder(id)))
          \/ \E id \in Ids : Call(id) /\ Step(Op("call", id, "", Holder(id)))
@@ -35,5 +38,5 @@ GNext == \/ Add /\ Step(Op("add", 0, "", NextInst))
          \/ \E k \in Inst : Emit(k) /\ Step(Op("emit", idOf[k], "", k))
 GSpec == GInit /\ [][GNext]_gvars
 Short == Len(hist) < MaxLen
-View == <<objects, boxes, st, idOf, term, exec, subs, told, got, svc, crashed>>
+View == <<objects, boxes, st, idOf, term, exec, subs, told, got, svc, crashed, slot, handlers, conn>>
 =============================================================================
